@@ -35,6 +35,7 @@ func runC19(c *Ctx) {
 	c.rule("E4", "GetNext returns the item of the current page iterator's GetNext, obtained after HasNext() answered true", 2)
 	c.rule("E5", "every function that stores AbstractPaginator.currentPage also re-derives currentPageIterator from that page (or clears it) on every path", 1)
 	c.rule("E6", "the context stored in AbstractPaginator.ctx is the child context whose cancel function is registered in the store that Stop() cancels; Close() invokes Stop()'s result", 3)
+	c.rule("E16", "the future page the stream paginator fetched is installed through the setter that refuses a nil page, or where it was found not nil: 'no page yet' does not cost the paginator the page it is on", 1)
 	c.rule("E7", "the stream paginator's HasNext answers true only through AbstractPaginator.HasNext, and ends for lack of items only after IsRunningDry() and the grace-period comparison", 2)
 
 	for _, f := range c.srcFuncs(pagPkg) {
@@ -950,6 +951,7 @@ func (c *Ctx) c19Stream() {
 		"while the stream has not been told to dry up the reference instant of the grace period is not refreshed: the grace period is then counted from the last item seen instead of from DryUp(), and items of future pages arriving within the grace period are never yielded")
 	// and the future page fetched is installed
 	var fetch, set *ssa.Call
+	unguarded := false
 	allInstrs(f, func(in ssa.Instruction) {
 		if call, ok := in.(*ssa.Call); ok {
 			n := calleeFull(&call.Call)
@@ -959,18 +961,33 @@ func (c *Ctx) c19Stream() {
 			if strings.HasSuffix(n, ".SetCurrentPage") {
 				set = call
 			}
+			if strings.HasSuffix(n, ".setCurrentPage") && set == nil {
+				set, unguarded = call, true
+			}
 		}
 	})
 	good := fetch != nil && set != nil && dominates(fetch, set)
+	var future ssa.Value
 	if good {
 		good = false
 		for _, l := range sources(set.Call.Args[len(set.Call.Args)-1], deriveOpts{}) {
 			if ex, ok := l.(*ssa.Extract); ok && ex.Tuple == ssa.Value(fetch) && ex.Index == 0 {
-				good = true
+				good, future = true, ex
 			}
 		}
 	}
 	c.check(good, "E7", fname(f)+"/future", c.pos(f.Pos()), "future page fetched and installed as current", "the future page fetched is not installed as the current page")
+	// E16: "keeps yielding items of future pages until it has been told the stream is drying up": a fetch that answers "no
+	// page yet" (nil, nil) must not cost the paginator the page it is on. The exported setter refuses a nil page; the
+	// internal one installs it — no page, no iterator, for good.
+	if good {
+		okNil := !unguarded
+		if unguarded && future != nil {
+			okNil = onNonNilSide(future, set)
+		}
+		c.check(okNil, "E16", fname(f)+"/no-page-yet-is-not-a-page", c.ipos(set), "the future page is installed through the setter that refuses nil (or where it was found not nil)",
+			"the future page is installed with the internal setter, which accepts nil: a fetch that answers 'nothing published yet' (nil, nil) replaces the current page by no page at all — the paginator is dead from then on, the items of the future pages are never yielded although the stream was never told to dry up")
+	}
 
 	// stream GetNext returns AbstractPaginator.GetNext's item
 	g := c.fn(pagPkg, "(*AbstractStreamPaginator).GetNext")
